@@ -847,7 +847,7 @@ impl ProxyServer {
         mut http_connection_context: HttpConnectionContext,
         request: Request<Limited<Incoming>>,
     ) -> Result<Response<BoxBody<Bytes, hyper::Error>>> {
-        let (head, body) = request.into_parts();
+        let (mut head, body) = request.into_parts();
         let whole_body = match body.collect().await {
             Ok(data) => data.to_bytes(),
             Err(e) => {
@@ -858,6 +858,13 @@ impl ProxyServer {
                 return Ok(Self::empty_response(StatusCode::BAD_REQUEST));
             }
         };
+
+        // an empty body has nothing to frame: the http client drops the transfer-encoding header of
+        // such a request when it writes it, so drop it here, before the request is signed,
+        // to sign the headers the host will actually receive
+        if whole_body.is_empty() {
+            head.headers.remove(hyper::header::TRANSFER_ENCODING);
+        }
 
         http_connection_context.log(
             LoggerLevel::Trace,
